@@ -45,6 +45,35 @@ def _absent(out):
     return n
 
 
+def _abspar(out):
+    """replay the event-level parent-link model (Abs/Parents.v) on every real trace, once per
+    child that some `parent` operation of the scenario names"""
+    import os, re
+    from .. import core
+    n = skipped = 0
+    if not os.path.exists(core.DRIVER):
+        return 0, 0
+    for r in out['results']:
+        if not r['ok'] or 'noreplay' in r['name']:
+            continue
+        try:
+            text = open(r['trace_path']).read()
+        except OSError:
+            continue
+        children = sorted(set(re.findall(r'^OP \d+ parent (\d+) \d+$', text, re.M)), key=int)
+        for c in children:
+            rc, o = core.run([core.DRIVER, 'abspar', r['trace_path'], c], timeout=120)
+            n += 1
+            if 'ABSSKIP' in o:
+                skipped += 1
+            for l in o.split('\n'):
+                if l.startswith('DIFF'):
+                    out['diffs'].append('%s [parent model, child %s]: %s' % (r['name'], c, l[:400]))
+            if rc not in (0, 1):
+                out['diffs'].append('%s: parent-model replay failed: %s' % (r['name'], o[-200:]))
+    return n, skipped
+
+
 def _tier(ctx, quick, thorough):
     return quick if ctx['tier'] == 'quick' else thorough
 
@@ -178,7 +207,11 @@ def run_c04(ctx):
 def run_c05(ctx):
     n = _tier(ctx, 24, 300)
     jobs, metas = _jobs_from(scen.parents_clean, 'C05', ctx['seed'], n)
+    jobs = pc.corpus_jobs(['S19_*.scn', 'S25_*.scn']) + jobs
     out = pc.run_scenarios('C05', ctx, jobs, [oracles.c05_parents, oracles.c01_entities, oracles.c09_traffic], nontrivial=pc.received_kinds)
+    nrep, nskip = _abspar(out)
+    out['opstats']['parent_model_replays'] = nrep
+    out['opstats']['parent_model_replays_outside_premises'] = nskip
     return pc.make_result('C05', ctx, out, 'frames of non-conflicting set-parent / re-parent histories (chains, fan-out, moves, same-frame mark+parent, late joiner); non-trivial = distinct (scenario, receiver, kind, key) received')
 
 
@@ -261,8 +294,12 @@ def _c09_oracle(tr, origin):
 
 def run_c09(ctx):
     n = _tier(ctx, 32, 400)
-    jobs = pc.generated_jobs('C09', ctx['seed'], n, ['values', 'parents', 'mixed', 'assets', 'entities', 'skinned'])
+    jobs = pc.corpus_jobs(['S19_*.scn', 'S25_*.scn', 'S7_*.scn']) + pc.generated_jobs('C09', ctx['seed'], n, ['values', 'parents', 'mixed', 'assets', 'entities', 'skinned'])
     out = pc.run_scenarios('C09', ctx, jobs, [_c09_oracle], nontrivial=pc.received_kinds)
+    nrep, nskip = _abspar(out)
+    out['opstats']['parent_model_replays'] = nrep
+    out['opstats']['parent_model_replays_outside_premises'] = nskip
+    out['opstats']['entity_model_replays'] = _absent(out)
     return pc.make_result('C09', ctx, out, 'frames of histories of every kind, each ending with a drain that must reach quiescence (3 silent rounds, empty queues, no pending download) within 80 rounds, and whose total number of received messages must stay below 3(N+1)^2 per operation plus the snapshots; non-trivial = distinct (scenario, receiver, kind, key) received')
 
 
